@@ -138,7 +138,7 @@ func VerifH_C20_Filters() {
 	text := "module m { namespace 'urn:m'; prefix m; " +
 		"container a {" + aT + " leaf a1 { type string;" + a1T + " } leaf a2 { type string;" + a2T + " } " +
 		"container a3 {" + a3T + " leaf a31 { type string;" + a31T + " } } leaf a4 { type string;" + a4T + " } } " +
-		"list l { key k;" + lT + " leaf k { type string; } leaf v { type string;" + vT + " } } " +
+		"list l { key k; unique \"v\";" + lT + " leaf k { type string; } leaf v { type string;" + vT + " } } " +
 		"leaf t { type string;" + tT + " } " +
 		"choice ch {" + chT + " default ca; case ca { leaf x { type string;" + xT + " } } case cb { leaf y { type string;" + yT + " } } } }"
 	fi := vrt.Choice("filter", len(c20Filters))
